@@ -347,6 +347,10 @@ def check(prop, spec, a, workdir, known, t0):
     for k, items in known_hit.values():
         n = sum(c for _, c, _ in items)
         lines.append(f"KNOWN-FINDING: property={prop} {k['what']} [signature {k['signature']}; seen {n}x this run]")
+    # every listed open finding of this property is named, also when this run's sample did not hit it
+    for k in known:
+        if k.get('status') == 'open' and k.get('property') == prop and k['signature'] not in known_hit:
+            lines.append(f"KNOWN-FINDING: property={prop} {k['what']} [signature {k['signature']}; not observed in this run]")
     for v in violations:
         path = os.path.join(ROOT, 'replays', prop, digest(v['sig']) + '.json')
         with open(path, 'w') as f:
